@@ -28,6 +28,7 @@ type insTemplate struct {
 	Loads  []string // memory spaces read
 	Stores []string // memory spaces written
 	Term   bool     // has a real jump target: only allowed as the last instruction
+	Len    int      // length in bytes (0 = 4)
 	// Effects builds the effect list for the instruction at address a
 	// (target: a constant jump target for branches).
 	Effects func(b *effBuilder, a, target uint64) []sx.Val
@@ -76,7 +77,7 @@ func insAlphabet() []insTemplate {
 		{Name: "mv x2,x1", In: []string{"x1"}, Out: []string{"x2"}, Effects: E(func(b *effBuilder, a, t uint64) []sx.Val {
 			return []sx.Val{b.rstore(b.reg("x1", 8), "x2", 8)}
 		})},
-		{Name: "li x1,5", Out: []string{"x1"}, Effects: E(func(b *effBuilder, a, t uint64) []sx.Val {
+		{Name: "li x1,5", Len: 2, Out: []string{"x1"}, Effects: E(func(b *effBuilder, a, t uint64) []sx.Val {
 			return []sx.Val{b.rstore(b.cst(5, 8), "x1", 8)}
 		})},
 		{Name: "li x2,7", Out: []string{"x2"}, Effects: E(func(b *effBuilder, a, t uint64) []sx.Val {
@@ -93,13 +94,13 @@ func insAlphabet() []insTemplate {
 		{Name: "auipc x2", Out: []string{"x2"}, Effects: E(func(b *effBuilder, a, t uint64) []sx.Val {
 			return []sx.Val{b.rstore(b.cst(a+0x1000, 8), "x2", 8)}
 		})},
-		{Name: "jal x1,+4", Out: []string{"x1", "ip"}, Effects: E(func(b *effBuilder, a, t uint64) []sx.Val {
+		{Name: "jal x1,+4", Out: []string{"x1"}, Effects: E(func(b *effBuilder, a, t uint64) []sx.Val {
 			return []sx.Val{b.rstore(b.cst(a+4, 8), "x1", 8), b.rstore(b.cst(a+4, 8), ipName, 8)}
 		})},
 		{Name: "add x1,x1,x2", In: []string{"x1", "x2"}, Out: []string{"x1"}, Effects: E(func(b *effBuilder, a, t uint64) []sx.Val {
 			return []sx.Val{b.rstore(b.bin(1, b.reg("x1", 8), b.reg("x2", 8), 8), "x1", 8)}
 		})},
-		{Name: "nop", Effects: E(func(b *effBuilder, a, t uint64) []sx.Val { return nil })},
+		{Name: "nop", Len: 2, Effects: E(func(b *effBuilder, a, t uint64) []sx.Val { return nil })},
 		{Name: "csrrw x2,c1,x0", Type: 2, In: []string{"csr1"}, Out: []string{"x2"}, Effects: E(func(b *effBuilder, a, t uint64) []sx.Val {
 			return []sx.Val{b.rstore(b.reg("csr1", 8), "x2", 8)}
 		})},
@@ -112,7 +113,16 @@ func insAlphabet() []insTemplate {
 		{Name: "sd x1,8(x2)", In: []string{"x1", "x2"}, Stores: []string{"m"}, Effects: E(func(b *effBuilder, a, t uint64) []sx.Val {
 			return []sx.Val{b.mstore(b.reg("x1", 8), "m", b.bin(1, b.reg("x2", 8), b.cst(8, 8), 8), 8)}
 		})},
+		{Name: "jal x2,+4", Out: []string{"x2"}, Effects: E(func(b *effBuilder, a, t uint64) []sx.Val {
+			return []sx.Val{b.rstore(b.cst(a+4, 8), "x2", 8), b.rstore(b.cst(a+4, 8), ipName, 8)}
+		})},
+		{Name: "amoadd.d x1,x1,(x1)", Type: 1, In: []string{"x1"}, Out: []string{"x1"}, Loads: []string{"m"}, Stores: []string{"m"}, Effects: E(func(b *effBuilder, a, t uint64) []sx.Val {
+			return []sx.Val{b.rstore(b.mload("m", b.reg("x1", 8), 8), "x1", 8), b.mstore(b.bin(1, b.mload("m", b.reg("x1", 8), 8), b.reg("x1", 8), 8), "m", b.reg("x1", 8), 8)}
+		})},
 		// terminators
+		{Name: "bgeu x1,x2,T", In: []string{"x1", "x2"}, Out: []string{"ip"}, Term: true, Effects: E(func(b *effBuilder, a, t uint64) []sx.Val {
+			return []sx.Val{b.rstore(b.less(b.reg("x1", 8), b.reg("x2", 8), b.cst(a+4, 8), b.cst(t, 8), 8), ipName, 8)}
+		})},
 		{Name: "bltu x1,x2,T", In: []string{"x1", "x2"}, Out: []string{"ip"}, Term: true, Effects: E(func(b *effBuilder, a, t uint64) []sx.Val {
 			return []sx.Val{b.rstore(b.less(b.reg("x1", 8), b.reg("x2", 8), b.cst(t, 8), b.cst(a+4, 8), 8), ipName, 8)}
 		})},
@@ -125,7 +135,35 @@ func insAlphabet() []insTemplate {
 	}
 }
 
-const nonTermTemplates = 16
+// nonTermTemplates is the number of templates that may stand anywhere in a
+// block (the terminators follow them in the alphabet).
+var nonTermTemplates = func() int {
+	n := 0
+	for _, t := range insAlphabet() {
+		if !t.Term {
+			n++
+		}
+	}
+	return n
+}()
+
+// tix returns the index of a template by name.
+func tix(name string) int {
+	for i, t := range insAlphabet() {
+		if t.Name == name {
+			return i
+		}
+	}
+	panic("no instruction template " + name)
+}
+
+func tixs(names ...string) []int {
+	var out []int
+	for _, n := range names {
+		out = append(out, tix(n))
+	}
+	return out
+}
 
 // blockSeq is a block: template indices in address order.
 type blockSeq []int
@@ -181,9 +219,10 @@ func blockCorpus(tier string, seed int64) []blockSeq {
 		}
 		rec2(nil)
 	}
-	regFam := []int{2, 5, 1, 3, 4}       // li x1; ld x1,(x2); mv x2,x1; li x2; sd x2,(x1)
-	memFam := []int{4, 15, 5, 14, 6, 13} // two stores, two loads, fence, store to m2
-	ipFam := []int{9, 8, 0, 7, 11}       // jal +4; auipc; addi; ecall; nop
+	regFam := tixs("li x1,5", "ld x1,0(x2)", "mv x2,x1", "li x2,7", "sd x2,0(x1)")
+	memFam := tixs("sd x2,0(x1)", "sd x1,8(x2)", "ld x1,0(x2)", "lw x2,0(x1)", "fence", "sw x1,m2")
+	ipFam := tixs("jal x1,+4", "jal x2,+4", "auipc x2", "addi x1,x1,1", "ecall", "nop")
+	sub(tixs("amoadd.d x1,x1,(x1)", "li x2,7", "nop", "fence", "ld x1,0(x2)"), 3)
 	sub(regFam, 3)
 	sub(memFam, 3)
 	sub(ipFam, 3)
@@ -191,7 +230,7 @@ func blockCorpus(tier string, seed int64) []blockSeq {
 	if tier == "thorough" {
 		sub(memFam, 4)
 		sub(ipFam, 4)
-		sub([]int{2, 5, 1, 9, 0, 10}, 4)
+		sub(tixs("li x1,5", "ld x1,0(x2)", "mv x2,x1", "jal x1,+4", "addi x1,x1,1", "add x1,x1,x2"), 4)
 	}
 	rng := rand.New(rand.NewSource(seed*131 + 9))
 	for i := 0; i < nrand; i++ {
@@ -270,12 +309,21 @@ func (c *Ctx) mkParserInstr(p *sx.Path, t insTemplate, addr, target uint64, leng
 	return st
 }
 
+func (t insTemplate) length() int {
+	if t.Len == 0 {
+		return 4
+	}
+	return t.Len
+}
+
 func (c *Ctx) mkInstrSeq(p *sx.Path, seq blockSeq, base uint64) sx.Val {
 	al := insAlphabet()
 	pit := c.pkgType("mltwist/internal/parser", "Instruction")
 	var els []sx.Val
-	for i, t := range seq {
-		els = append(els, c.mkParserInstr(p, al[t], base+4*uint64(i), base, 4))
+	a := base
+	for _, t := range seq {
+		els = append(els, c.mkParserInstr(p, al[t], a, base, al[t].length()))
+		a += uint64(al[t].length())
 	}
 	return p.NewSlice(pit, els)
 }
@@ -440,11 +488,13 @@ func (w *depsWorld) runBlock() *machState {
 	type li struct {
 		addr uint64
 		efs  sx.Val
+		len  uint64
 	}
 	var layout []li
 	for _, ip := range w.order() {
 		a, _ := w.insField(ip, "currAddr").(*smt.Term).Uint64()
-		layout = append(layout, li{a, w.insField(ip, "effects")})
+		n, _ := w.insField(ip, "bytes").(sx.Slice).Len.Uint64()
+		layout = append(layout, li{a, w.insField(ip, "effects"), n})
 	}
 	ip := w.base
 	for steps := 0; ; steps++ {
@@ -486,10 +536,10 @@ func (w *depsWorld) runBlock() *machState {
 			s.mems[ef.Key.S] = m
 		}
 		if newIP == nil {
-			ip += 4
+			ip += cur.len
 			continue
 		}
-		if k, ok := newIP.Uint64(); ok && k == cur.addr+4 {
+		if k, ok := newIP.Uint64(); ok && k == cur.addr+cur.len {
 			// a jump to the instruction that follows anyway
 			ip = k
 			continue
